@@ -269,6 +269,14 @@ func (g *Gen) fieldsLine(kind, signer string, denom int) string {
 	return fmt.Sprintf("%s %s %s %s %s %s %s %s %s %s", kind, signer, dtok, dv, w, mn, mx, tr, cr, ci)
 }
 
+// signerL: as signer, or the legacy x/gov v1beta1 proposal route (create/update/delete only)
+func (g *Gen) signerL() string {
+	if g.R.Intn(5) == 0 {
+		return "legacy"
+	}
+	return g.signer()
+}
+
 func (g *Gen) signer() string {
 	switch g.R.Intn(12) {
 	case 0:
@@ -399,20 +407,20 @@ func (g *Gen) Next() string {
 	case "gov":
 		switch g.R.Intn(10) {
 		case 0:
-			return g.fieldsLine("create", g.signer(), g.R.Intn(3))
+			return g.fieldsLine("create", g.signerL(), g.R.Intn(3))
 		case 1:
 			d := fmt.Sprint(g.R.Intn(3))
 			if g.R.Intn(8) == 0 {
 				d = "-1"
 			}
-			return fmt.Sprintf("delete %s %s", g.signer(), d)
+			return fmt.Sprintf("delete %s %s", g.signerL(), d)
 		case 2, 3:
 			delay := []string{"0", "1000000000", "-1", "604800000000000"}[g.R.Intn(4)]
 			interval := []string{"300000000000", "60000000000", "1", "-1", "86400000000000", "300000000000"}[g.R.Intn(6)]
 			last := []string{"keep", "keep", "keep", "0", "-600000000000", "600000000000"}[g.R.Intn(6)]
 			return fmt.Sprintf("params %s %s %s %s", g.signer(), delay, interval, last)
 		default:
-			return g.fieldsLine("update", g.signer(), g.R.Intn(3))
+			return g.fieldsLine("update", g.signerL(), g.R.Intn(3))
 		}
 	case "native":
 		switch g.R.Intn(7) {
